@@ -168,6 +168,8 @@ def run_C03(ctx):
     rng = ctx.rng
     progs = corpus_progs(ctx) + [G.gen_worklist_program(rng, {"p_fail": 0.75, "nops": (0, 5)}) for _ in range(ctx.n(260))]
     stateful(ctx, res, "worklist-failing", progs, ["replay_safe"])
+    progs = [gen_evo_program(rng, p_fail=0.5) for _ in range(ctx.n(120))]
+    stateful(ctx, res, "evo-failing", progs, ["evo_step"])
     return res
 
 
@@ -583,7 +585,10 @@ register("C02", run_C02, module="Robotools.Props.C02",
                    "removeStep_err", "addStep_valid", "removeStep_valid", "micro_valid", "exec_decompose", "exec_append", "exec_valid",
                    "compile_nonneg", "step_limits", "world_limits", "mk_valid", "trough_mk_valid")], rule="add/remove histories and worklist programs with boundary-biased volumes; rejected operations are followed by further operations")
 register("C03", run_C03, rule="worklist programs whose last operation is built to fail at a chosen sub-step; records replayed after every operation")
-register("C04", run_C04, rule="direct add/remove histories over plates and troughs with scalar/list/2-D arguments and repeats")
+register("C04", run_C04, module="Robotools.Props.C04",
+         theorems=["Robotools.C04." + t for t in ("micro_shape", "executed_prefix", "executed_all_of_ok", "exec_ledger", "exec_frame",
+                   "compileRemove_shape", "compileAdd_shape", "compileAdd_rejects_shape", "compileRemove_rejects_shape", "scalar_broadcast",
+                   "flattenF_mat_get", "flattenF_mat_length", "flattenF_pairs", "trough_alias", "plate_index", "repeat_charged")], rule="direct add/remove histories over plates and troughs with scalar/list/2-D arguments and repeats")
 register("C05", run_C05, rule="transfer/distribute/dispense histories with shared component names; exact amounts ledger")
 register("C06", run_C06, module="Robotools.Props.C06",
          theorems=["Robotools.C06.partition_spec", "Robotools.C06.partition_zero", "Robotools.C06.multi_disp_fits",
@@ -785,6 +790,8 @@ def run_C10(ctx):
     stateful(ctx, res, "evo", progs, ["evo"])
     progs = [G.gen_worklist_program(rng, {"kinds": ["transfer"], "nops": (1, 2), "p_fail": 0.0}) for _ in range(ctx.n(40))]
     stateful(ctx, res, "transfer-pairs", progs, ["transfer"])
+    # only the clauses of C10: mask / slot occupancy of EVO commands, equal masks on both records of a pair
+    res.viol = [f for f in res.viol if f.sig and (f.sig.startswith("C10:") or f.sig == "C07:pair-fields-differ")]
     return res
 
 
@@ -1390,3 +1397,282 @@ def run_C20(ctx):
 
 
 register("C20", run_C20, rule="constructor specifications (plates up to 26x120, troughs up to 26 virtual rows) with scalar / flat / 2-D initial volumes and names; one fault per invalid specification from the statement's classes")
+
+
+# ------------------------------------------------------------------ C09 records
+def gen_record_program(rng):
+    cfg = {"dev": rng.choice(["evo", "fluent", "base"]), "max_volume": rng.choice([F(950), F(100), F(1000)]),
+           "auto_split": True, "diti_mode": rng.random() < 0.3}
+    ops = []
+    T = lambda n=40, semi=0.0: G.rand_text(rng, n, allow_semicolon=rng.random() < semi)
+    for _ in range(rng.randint(1, 10)):
+        x = rng.random()
+        fault = rng.random() < 0.3
+        if x < 0.35:
+            kw = {}
+            if rng.random() < 0.6: kw["liquid_class"] = T(20)
+            if rng.random() < 0.5: kw["rack_id"] = T(32)
+            if rng.random() < 0.4: kw["tube_id"] = T(32)
+            if rng.random() < 0.4: kw["rack_type"] = T(32)
+            if rng.random() < 0.3: kw["forced_rack_type"] = T(32)
+            if rng.random() < 0.5:
+                kw["tip"] = rng.choice([("single", ("int", rng.randint(1, 8))), ("many", [("int", rng.randint(1, 8)) for _ in range(rng.randint(0, 4))]),
+                                        ("single", ("member", rng.choice([-1, 1, 2, 4, 8, 16, 32, 64, 128])))])
+            op = {"op": rng.choice(["aspirate_well", "dispense_well"]), "rack_label": T(32) or "L", "position": rng.randint(0, 400),
+                  "vol": rng.choice([F(0), G.grid(rng, 0, cfg["max_volume"]), cfg["max_volume"], F(1, 8), F(3, 8), F(5, 8), F(201, 8)]), "kw": kw}
+            if fault:
+                f = rng.choice(["label_len", "label_semi", "pos_neg", "pos_bad", "vol_neg", "vol_big", "vol_max", "lc", "rid", "rid_len", "tid", "rtype", "frt", "tip0", "tip9", "tipany", "tipbad"])
+                if f == "label_len": op["rack_label"] = "x" * 33
+                elif f == "label_semi": op["rack_label"] = "a;b"
+                elif f == "pos_neg": op["position"] = -1
+                elif f == "pos_bad": op["position"] = proto.Bad(rng.choice([1.0, "1", None]))
+                elif f == "vol_neg": op["vol"] = -F(1, 2)
+                elif f == "vol_big": op["vol"] = F(7158279)
+                elif f == "vol_max": op["vol"] = cfg["max_volume"] + F(1, 8)
+                elif f == "lc": kw["liquid_class"] = "x;y"
+                elif f == "rid": kw["rack_id"] = ";"
+                elif f == "rid_len": kw["rack_id"] = "i" * 33
+                elif f == "tid": kw["tube_id"] = "t;u"
+                elif f == "rtype": kw["rack_type"] = rng.choice(["t" * 33, "a;"])
+                elif f == "frt": kw["forced_rack_type"] = rng.choice(["f" * 33, ";a"])
+                elif f == "tip0": kw["tip"] = ("single", ("int", 0))
+                elif f == "tip9": kw["tip"] = ("many", [("int", 1), ("int", 9)])
+                elif f == "tipany": kw["tip"] = ("many", [("member", -1)])
+                elif f == "tipbad": kw["tip"] = ("single", ("bad", 2.5))
+        elif x < 0.55:
+            ds, de = sorted([rng.randint(1, 96), rng.randint(1, 96)])
+            excl = sorted(set(rng.sample(range(ds, de + 1), min(de - ds + 1, rng.randint(0, 5))))) if rng.random() < 0.6 else []
+            if rng.random() < 0.5:
+                rng.shuffle(excl)
+            v = rng.choice([F(25), proto.PyInt(100), G.grid(rng, 0, cfg["max_volume"]), F(25, 2), F(1, 8), proto.PyInt(0)])
+            op = {"op": "reagent_distribution", "src_label": T(32) or "T", "src_start": rng.randint(1, 8), "src_end": rng.randint(8, 16),
+                  "dst_label": T(32) or "P", "dst_start": ds, "dst_end": de, "vol": v, "diti_reuse": rng.choice([1, 2, 6]),
+                  "multi_disp": rng.choice([1, 2, 6, 12, 50]), "exclude": excl, "liquid_class": T(20),
+                  "direction": rng.choice(["left_to_right", "right_to_left"]), "src_rack_id": T(10), "src_rack_type": T(10),
+                  "dst_rack_id": T(10), "dst_rack_type": T(10)}
+            if fault:
+                f = rng.choice(["dir", "excl", "lc", "label", "vol_neg", "vol_max", "pos", "pos_bad", "rid"])
+                if f == "dir": op["direction"] = rng.choice(["up", "", "LEFT_TO_RIGHT"])
+                elif f == "excl": op["exclude"] = [de + 1]
+                elif f == "lc": op["liquid_class"] = "a;b"
+                elif f == "label": op[rng.choice(["src_label", "dst_label"])] = rng.choice(["x" * 33, "a;b"])
+                elif f == "vol_neg": op["vol"] = -F(1)
+                elif f == "vol_max": op["vol"] = cfg["max_volume"] + 1
+                elif f == "pos": op[rng.choice(["src_start", "src_end", "dst_start", "dst_end"])] = -1; op["exclude"] = []
+                elif f == "pos_bad": op[rng.choice(["src_start", "src_end"])] = proto.Bad(1.5)
+                elif f == "rid": op[rng.choice(["src_rack_id", "dst_rack_type"])] = rng.choice(["a;b", "r" * 33])
+        elif x < 0.7:
+            op = {"op": "comment", "text": rng.choice([None, "", T(40), T(10) + "\n" + T(10), "  " + T(5) + "\xa0", T(40, semi=1.0) if fault else T(5)])}
+        elif x < 0.8:
+            op = {"op": "wash", "scheme": rng.choice([0, 5, -1]) if fault else rng.randint(1, 4)}
+        elif x < 0.85:
+            op = {"op": "decontaminate"}
+        elif x < 0.9:
+            op = {"op": "flush"}
+        elif x < 0.95:
+            op = {"op": "commit"}
+        else:
+            op = {"op": "set_diti", "index": rng.randint(0, 9)}
+        ops.append(op)
+    return {"cfg": cfg, "labs": [], "ops": ops, "exact": True}
+
+
+class RecordOracle(O.Oracle):
+    """Every appended record parses by the independent grammar to exactly the arguments given;
+    calls that cannot be represented raise and append nothing."""
+    name = "records"
+
+    def __init__(self, prog):
+        super().__init__(prog)
+        self.n = 0
+
+    def representable(self, op):
+        cfg = self.prog["cfg"]
+        k = op["op"]
+        ok32 = lambda s: isinstance(s, str) and len(s) <= 32 and ";" not in s
+        if k in ("aspirate_well", "dispense_well"):
+            kw = op.get("kw", {})
+            if not ok32(op["rack_label"]) or not isinstance(op["position"], int) or op["position"] < 0:
+                return False
+            v = F(op["vol"])
+            if v < 0 or v > 7158278 or v > F(cfg["max_volume"]):
+                return False
+            if ";" in kw.get("liquid_class", "") or not all(ok32(kw.get(n, "")) for n in ("rack_id", "rack_type", "forced_rack_type")):
+                return False
+            if ";" in kw.get("tube_id", ""):
+                return False
+            t = kw.get("tip", proto.ANY_TIP)
+            el = [t[1]] if t[0] == "single" else t[1]
+            for e in el:
+                if e[0] == "int" and not 1 <= e[1] <= 8:
+                    return False
+                if e[0] == "bad" or (e[0] == "member" and e[1] == -1 and t[0] == "many"):
+                    return False
+            return True
+        if k == "reagent_distribution":
+            if op["direction"] not in ("left_to_right", "right_to_left"):
+                return False
+            for n in ("src_start", "src_end", "dst_start", "dst_end"):
+                if not isinstance(op[n], int) or op[n] < 0:
+                    return False
+            if any(e < op["dst_start"] or e > op["dst_end"] for e in op.get("exclude", [])):
+                return False
+            v = F(op["vol"])
+            if v < 0 or v > F(cfg["max_volume"]):
+                return False
+            if ";" in op.get("liquid_class", "") or not all(ok32(op.get(n, "")) for n in ("src_label", "dst_label", "src_rack_id", "src_rack_type", "dst_rack_id", "dst_rack_type")):
+                return False
+            return True
+        if k == "comment":
+            return not (op.get("text") and ";" in op["text"])
+        if k == "wash":
+            return cfg.get("diti_mode") or op["scheme"] in (1, 2, 3, 4)
+        if k == "decontaminate":
+            return not cfg.get("diti_mode")
+        return True
+
+    def __call__(self, run, i, op, exc):
+        import gwl
+        recs = [str(r) for r in run.wl]
+        new = recs[self.n:]
+        before = self.n
+        self.n = len(recs)
+        k = op["op"]
+        if exc is not None:
+            if new:
+                self.fail(f"C09:rejected-call-appended:{k}", f"op {i} ({k}) raised {exc!r} but appended {new}", i)
+            return
+        if not self.representable(op):
+            self.fail(f"C09:unrepresentable-accepted:{k}", f"op {i}: {k}({ {a: b for a, b in op.items() if a != 'op'} }) accepted, appended {new}", i)
+            return
+        try:
+            parsed = [gwl.parse_record(r) for r in new]
+        except gwl.GrammarError as e:
+            self.fail(f"C09:grammar:{k}", f"op {i} ({k}): {e}", i)
+            return
+        cfg = self.prog["cfg"]
+        def r2(v):
+            x = F(v) * 100
+            fl = x.numerator // x.denominator
+            d = x - fl
+            return F(fl if d < F(1, 2) else fl + 1 if d > F(1, 2) else (fl if fl % 2 == 0 else fl + 1), 100)
+        if k in ("aspirate_well", "dispense_well"):
+            kw = op.get("kw", {})
+            t = kw.get("tip", proto.ANY_TIP)
+            el = [t[1]] if t[0] == "single" else t[1]
+            mask = None
+            if not (t[0] == "single" and t[1] == ("member", -1)):
+                mask = 0
+                for e in el:
+                    mask |= (1 << (e[1] - 1)) if e[0] == "int" else e[1]
+            want = {"kind": "A" if k == "aspirate_well" else "D", "rack_label": op["rack_label"], "rack_id": kw.get("rack_id", ""),
+                    "rack_type": kw.get("rack_type", ""), "position": op["position"], "tube_id": kw.get("tube_id", ""),
+                    "volume": r2(op["vol"]), "liquid_class": kw.get("liquid_class", ""), "tip": mask,
+                    "forced_rack_type": kw.get("forced_rack_type", "")}
+            if len(parsed) != 1 or any(parsed[0].get(a) != b for a, b in want.items()):
+                self.fail(f"C09:arguments:{k}", f"op {i}: record {new} does not carry {want}", i)
+        elif k == "reagent_distribution":
+            v = F(op["vol"])
+            md = op.get("multi_disp", 1)
+            M = F(cfg["max_volume"])
+            if md * v > M:
+                md = math.floor(M / v)
+            want = {"kind": "R", "src_label": op["src_label"], "src_id": op.get("src_rack_id", ""), "src_type": op.get("src_rack_type", ""),
+                    "src_start": op["src_start"], "src_end": op["src_end"], "dst_label": op["dst_label"], "dst_id": op.get("dst_rack_id", ""),
+                    "dst_type": op.get("dst_rack_type", ""), "dst_start": op["dst_start"], "dst_end": op["dst_end"], "volume": v,
+                    "liquid_class": op.get("liquid_class", ""), "diti_reuse": op.get("diti_reuse", 1), "multi_disp": md,
+                    "direction": 0 if op["direction"] == "left_to_right" else 1, "excluded": sorted(op.get("exclude", []))}
+            if len(parsed) != 1 or any(parsed[0].get(a) != b for a, b in want.items()):
+                self.fail("C09:arguments:reagent_distribution", f"op {i}: record {new} does not carry {want}", i)
+        elif k == "comment":
+            text = op.get("text") or ""
+            ws = "\t\n\x0b\x0c\r\x1c\x1d\x1e\x1f \x85\xa0"
+            want = [ln.strip(ws) for ln in text.split("\n")]
+            want = ["C;" + ln for ln in want if ln]
+            if new != want:
+                self.fail("C09:arguments:comment", f"op {i}: comment {text!r} appended {new}, expected {want}", i)
+        else:
+            want = {"wash": ["W;"] if cfg.get("diti_mode") else [f"W{op.get('scheme')};"], "decontaminate": ["WD;"], "flush": ["F;"],
+                    "commit": ["B;"], "set_diti": [f"S;{op.get('index')}"]}.get(k)
+            if want is not None and new != want:
+                self.fail(f"C09:arguments:{k}", f"op {i}: {k} appended {new}, expected {want}", i)
+        if k == "set_diti" and not (before == 0 or recs[before - 1].startswith("B")):
+            self.fail("C09:set_diti-guard", f"op {i}: DiTi type switched after {recs[before - 1]!r}", i)
+
+
+ORACLES["records"] = RecordOracle
+
+
+class EvoStepOracle(O.Oracle):
+    """C03 for EVO script commands: no Aspirate/Dispense command carries a per-tip volume above the
+    worklist's max_volume, and a rejected call leaves no command behind."""
+    name = "evo_step"
+
+    def __init__(self, prog):
+        super().__init__(prog)
+        self.n = 0
+
+    def __call__(self, run, i, op, exc):
+        import re
+        recs = [str(r) for r in run.wl]
+        new = recs[self.n:]
+        self.n = len(recs)
+        M = F(self.prog["cfg"]["max_volume"])
+        for r in new:
+            m = re.match(r'B;(Aspirate|Dispense)\((\d+),"[^"]*",((?:(?:"[^"]*"|0),){8})', r)
+            if m:
+                if exc is not None:
+                    self.fail(f"C03:rejected-call-left-command:{op['op']}", f"op {i} raised {exc!r} but appended {r!r}", i)
+                for sv in m.group(3).rstrip(",").split(","):
+                    if sv != "0" and F(sv.strip('"')) > M:
+                        self.fail(f"C03:step-above-max-volume:{op['op']}", f"op {i}: {r!r} carries {sv} > max_volume {M}", i)
+
+
+ORACLES["evo_step"] = EvoStepOracle
+
+
+def run_C09(ctx):
+    res = Result()
+    rng = ctx.rng
+    progs = corpus_progs(ctx) + [gen_record_program(rng) for _ in range(ctx.n(220))]
+    stateful(ctx, res, "records", progs, ["records"], stop_on_error=False)
+    prof = {"p_fail": 0.3, "nops": (1, 4), "kinds": ["transfer", "aspirate", "dispense", "distribute", "distribute"]}
+    progs = [G.gen_worklist_program(rng, prof) for _ in range(ctx.n(80))]
+    stateful(ctx, res, "records-through-operations", progs, ["replay_grammar"])
+    return res
+
+
+class GrammarOnly(O.Oracle):
+    name = "grammar"
+
+    def __call__(self, run, i, op, exc):
+        import gwl
+        for r in run.wl:
+            try:
+                gwl.parse_record(str(r))
+            except gwl.GrammarError as e:
+                self.fail(f"C09:grammar:{op['op']}", f"op {i}: {e}", i)
+                return
+
+
+ORACLES["replay_grammar"] = GrammarOnly
+
+register("C09", run_C09, genok=["gen_templateA_ok", "gen_templateD_ok", "gen_templateR_ok", "gen_templateRsrc_ok", "gen_templateRdst_ok",
+                                "gen_templateComment_ok", "gen_templateWash_ok", "gen_templateWashDiti_ok", "gen_templateDecon_ok",
+                                "gen_templateFlush_ok", "gen_templateCommit_ok", "gen_templateSetDiti_ok", "gen_maxRecordVolume_ok",
+                                "gen_maxTextLen_ok", "gen_washSchemes_ok", "gen_volumeFormat_ok"],
+         rule="argument tuples of comment/wash/decontaminate/flush/commit/set_diti/aspirate_well/dispense_well/reagent_distribution with printable Latin-1 text 0..40 chars, one fault per invalid call; plus records produced through operations")
+
+
+# ------------------------------------------------------------------ C13 EVO script commands
+def run_C13(ctx):
+    res = Result()
+    rng = ctx.rng
+    progs = corpus_progs(ctx) + [gen_evo_program(rng, p_fail=0.35) for _ in range(ctx.n(300))]
+    stateful(ctx, res, "evo", progs, ["evo"], stop_on_error=False)
+    return res
+
+
+register("C13", run_C13, genok=["gen_templateEvoAspirate_ok", "gen_templateEvoDispense_ok", "gen_templateEvoWash_ok", "gen_tipSlots_ok",
+                                "gen_maxGrid_ok", "gen_maxSite_ok", "gen_maxDilutorVolume_ok", "gen_selBits_ok", "gen_selOffset_ok"],
+         rule="evo_aspirate/evo_dispense/evo_wash programs on plates and troughs: wells of one column in ascending order with shuffled distinct tips, scalar and per-tip volumes; one fault per invalid call (order, repeats, columns, ranges, lengths)")
